@@ -1148,3 +1148,117 @@ def replay(case):
     else:
         res = judge_tree(case)
     return [{"signature": s, "expected": repr(e)[:1500], "observed": repr(o)[:1500]} for s, e, o, _ in res]
+
+
+# --------------------------------------------------------------------------------------------------------------------
+# Family "hl" (main session, after seeded defects C04_17 / C04_18 were missed): the page loop of the high-level functions.
+# Every 3-page document over {page with text, page without /Contents, page whose content paints nothing} x Rotate {0, 90}
+# per page (plus two spellings with an empty /Contents array):
+#   (a) extract_pages yields exactly one LTPage per page, in order (an empty page is still a page);
+#   (b) extract_text_to_fp (text and xml, rotation argument 0 and 90): the output for the whole document is, page by page,
+#       the output of that page processed alone (nothing of an earlier page - e.g. its rotation - is carried into a later one).
+_HL_KINDS = ("text", "nocontents", "nopaint")
+_HL_ROT = (0, 90)
+
+
+def _hl_doc(pages):
+    from mc.pdfgen import Doc, N, Stream
+
+    d = Doc()
+    f1 = d.add({"Type": N("Font"), "Subtype": N("Type1"), "BaseFont": N("Helvetica")})
+    cat, root = d.reserve(), d.reserve()
+    kids = []
+    for i, (kind, rot) in enumerate(pages):
+        o = {"Type": N("Page"), "Parent": root, "MediaBox": [0, 0, 200 + 10 * i, 300], "Resources": {"Font": {"F1": f1}}, "Rotate": rot}
+        if kind == "text":
+            o["Contents"] = d.add(Stream({}, b"BT /F1 12 Tf 20 %d Td (P%d) Tj ET" % (100 + 10 * i, i)))
+        elif kind == "nopaint":
+            o["Contents"] = d.add(Stream({}, b"q 1 0 0 1 5 5 cm Q"))
+        elif kind == "emptyarr":
+            o["Contents"] = []
+        kids.append(d.add(o))
+    d.set(cat, {"Type": N("Catalog"), "Pages": root})
+    d.set(root, {"Type": N("Pages"), "Kids": kids, "Count": len(kids)})
+    return d.write(cat)
+
+
+def _hl_pages_of(out, otype):
+    import re
+
+    if otype == "text":
+        return out.split("\x0c")[:-1]
+    return [re.sub(r'<page id="[^"]*"', '<page id="X"', m) for m in re.findall(r"<page .*?</page>", out, flags=re.S)]
+
+
+def judge_hl(case):
+    from pdfminer.high_level import extract_pages, extract_text_to_fp
+    from pdfminer.layout import LAParams, LTTextContainer
+
+    pages = [tuple(p) for p in case["pages"]]
+    data = _hl_doc(pages)
+    res = []
+    try:
+        got = []
+        for lt in extract_pages(io.BytesIO(data)):
+            got.append((lt.pageid, "".join("".join(o.get_text() for o in lt if isinstance(o, LTTextContainer)).split())))  # a rotated page stacks the glyphs: white space is not judged here
+        exp = [(i + 1, "P%d" % i if k == "text" else "") for i, (k, r) in enumerate(pages)]
+        if got != exp:
+            res.append(("C04/high-level:extract_pages-page-sequence", exp, got, "extract_pages must yield one LTPage per page, in order"))
+    except Exception as e:  # noqa
+        res.append((f"C04/high-level:exception:{type(e).__name__}", "pages", repr(e), "extract_pages raised"))
+    for otype in ("text", "xml"):
+        for rotation in (0, 90):
+            def run(sel):
+                out = io.StringIO()
+                extract_text_to_fp(io.BytesIO(data), out, output_type=otype, laparams=LAParams(), codec=None, rotation=rotation, page_numbers=sel)
+                return out.getvalue()
+            try:
+                whole = _hl_pages_of(run(None), otype)
+                alone = [(_hl_pages_of(run([i]), otype) or ["<nothing>"])[0] for i in range(len(pages))]
+            except Exception as e:  # noqa
+                res.append((f"C04/high-level:exception:{type(e).__name__}", "output", repr(e), f"extract_text_to_fp({otype}) raised"))
+                continue
+            if whole != alone:
+                bad = [i for i in range(max(len(whole), len(alone))) if i >= len(whole) or i >= len(alone) or whole[i] != alone[i]]
+                res.append((f"C04/high-level:page-output-depends-on-earlier-pages:{otype}", alone, whole, f"pages {bad} differ from the page processed alone (rotation={rotation})"))
+    return res
+
+
+def _hl_cases():
+    out = [list(p) for p in itertools.product(itertools.product(_HL_KINDS, _HL_ROT), repeat=3)]
+    out += [[("text", 90), ("emptyarr", 0), ("text", 0)], [("emptyarr", 90), ("text", 0), ("emptyarr", 0)]]
+    return out
+
+
+_shards_before_hl, _run_shard_before_hl, _replay_before_hl = shards, run_shard, replay
+
+
+def shards(tier):  # noqa: F811
+    n = len(_hl_cases())
+    return _shards_before_hl(tier) + [("hl", lo, min(lo + 20, n)) for lo in range(0, n, 20)]
+
+
+def run_shard(shard, tier, st):  # noqa: F811
+    if shard[0] != "hl":
+        return _run_shard_before_hl(shard, tier, st)
+    for pages in _hl_cases()[shard[1]:shard[2]]:
+        case = {"part": "hl", "pages": [list(p) for p in pages]}
+        st.states += len(pages) + 1
+        st.transitions += 9 * len(pages)
+        st.traces += 1
+        res = judge_hl(case)
+        st.case(("hl", tuple(map(tuple, pages))), nontrivial=any(k != "text" or r for k, r in pages), outcome=("hl", tuple(sorted(s for s, _, _, _ in res))))
+        for sig, exp, obs, what in res:
+            st.violation(sig, case, exp, obs, what)
+    if shard[1] == 0:
+        st.sample({"family": "hl", "pages": [["text", 90], ["nocontents", 0], ["text", 0]], "checks": ["extract_pages page sequence", "extract_text_to_fp text/xml x rotation 0/90: whole == page by page"]})
+
+
+def replay(case):  # noqa: F811
+    if case.get("part") == "hl":
+        return [{"signature": s, "expected": repr(e)[:1500], "observed": repr(o)[:1500]} for s, e, o, _ in judge_hl(case)]
+    return _replay_before_hl(case)
+
+META["rule"] += (" hl: every 3-page document over {text page, page without /Contents, page whose content paints nothing} x Rotate {0,90} per page (plus empty /Contents arrays): "
+                 "extract_pages yields one LTPage per page in order, and extract_text_to_fp (text, xml; rotation argument 0 and 90) gives for the whole document, page by page, the output of "
+                 "that page processed alone.")
